@@ -233,7 +233,7 @@ def _gen_recv(rng, tier):
         elif k < 0.8:
             ops.append(['peek', _gen_size(rng, len(stream))])
         elif k < 0.92:
-            ops.append(['recv', _gen_size(rng, len(stream))])
+            ops.append(['recv', _gen_size(rng, len(stream))] if rng.random() < 0.93 else ['recv_flags', _gen_size(rng, len(stream))])
         else:
             ops.append(['recv_close', rng.choice(['unset', None, 0, 1, 3, 10, len(stream), max(0, len(stream) - 1)])])
     if timeout is not None and rng.random() < 0.3:
@@ -665,6 +665,8 @@ def _expected(op, R, default_maxsize):
         return ('MessageTooLong', None, 0)
     if name == 'recv':
         return ('prefix', None, None)
+    if name == 'recv_flags':
+        return ('ValueError', None, 0)      # non-zero flags are refused, whatever is buffered
     raise AssertionError(name)
 
 
@@ -699,6 +701,8 @@ def _call(bs, op):
         return bs.peek(op[1], **tkw)
     if name == 'recv':
         return bs.recv(op[1], **tkw)
+    if name == 'recv_flags':
+        return bs.recv(op[1], 2, **tkw)     # MSG_PEEK
     if name == 'recv_close':
         if op[1] == 'unset':
             return bs.recv_close(**tkw)
